@@ -32,6 +32,7 @@ var tplLiterals = []string{
 	`""`, `"a"`, `" "`, `"hello world"`, `"abc def ghi"`, `"1"`, `"-5"`, `"2017-01-15"`, `"10:30"`, `"a,b,,c"`, `","`, `"D"`, `"Y"`, `"s"`,
 	`"YYYY-MM-DD"`, `"tt:mm"`, `"(\\w+) (\\w+)"`, `"["`, `"{\"a\": [1, 2]}"`, `"héllo 😀 日本"`, `"tel:+12065551212"`, `"\\n"`, `"\""`,
 	`true`, `false`, `null`, `TRUE`, `Null`,
+	`"Ⱥ"`, `"ⱥ"`, `"İ"`, `"i̇"`, `"ß"`, `"ẞ"`, `"hello"`, `"HELLO WORLD"`, `"日本"`, `"日本語"`, `"é"`, `"é"`,
 }
 
 var tplBinOps = []string{"+", "-", "*", "/", "^", "&", "=", "!=", "<", "<=", ">", ">="}
